@@ -243,12 +243,21 @@ def update_connectivity(
     # By constructing the array using new_fill_value where needed,
     # setting the dtype explicitly, and adding the _FillValue attribute,
     # xarray will cooperate.
+    def new_value(item: Any) -> Any:
+        # Entries that were already missing stay missing.
+        if item is numpy.ma.masked:
+            return fill_value
+        # Entries that refer to an element that has been dropped become missing.
+        # This happens along the boundary of the clipped region,
+        # for example where a kept edge borders a dropped face.
+        value = column_values[item]
+        if value is numpy.ma.masked:
+            return fill_value
+        return value
+
     include_row = ~numpy.ma.getmask(row_indexes)
     raw_values = numpy.array([
-        [
-            column_values[item] if item is not numpy.ma.masked else fill_value
-            for item in row
-        ]
+        [new_value(item) for item in row]
         for row in old_array[include_row]
     ], dtype=dtype)
     values = numpy.ma.masked_equal(raw_values, fill_value)
